@@ -3299,14 +3299,14 @@ class ITESimplifyMacro(Macro):
             # Case 7: ite P (ite P x y) z <--> ite P x z
             elif logic.is_if(l_then):
                 l_then_P, l_then_then, _ = l_then.args
-                if l_P == l_then_P and l_then_then == r_then and l_else == r_else:
+                if l_P == l_then_P and l_P == r_P and l_then_then == r_then and l_else == r_else:
                     return True
                 else:
                     return False
             # Case 8: ite P x (ite P y z) <--> ite P x z
             elif logic.is_if(l_else):
                 l_else_P, _, l_else_else = l_else.args
-                if l_P == l_else_P and l_then == r_then and l_else_else == r_else:
+                if l_P == l_else_P and l_P == r_P and l_then == r_then and l_else_else == r_else:
                     return True
                 else:
                     return False
